@@ -275,7 +275,8 @@ class Inliner:
             return fi.node
         fn = copy.deepcopy(fi.node)
         fn = self._prefold(fn, fi)
-        if not any(isinstance(n, ast.Call) and self.resolve(n, fi) for n in _walk_local(fn)):
+        if not any(isinstance(n, ast.Call) and self.resolve(n, fi) for n in _walk_local(fn)) and \
+                not any(isinstance(c, ast.Call) and self.resolve(c, fi) for n in _walk_local(fn) if isinstance(n, ast.Lambda) for c in ast.walk(n.body)):
             return fi.node
         fn.body = self._block(fn.body, fi, depth, _stack + (fi.qual,))
         fn = simplify(fn)
@@ -340,6 +341,15 @@ class Inliner:
                 return ast.copy_location(ex, n)
 
             def visit_Lambda(self, n):
+                # expression-form helpers inside a lambda body (a sort key ..): substituted unless a lambda parameter would
+                # capture a name of the helper's body
+                params = {a.arg for a in n.args.args + n.args.kwonlyargs}
+                before = ast.dump(n.body)
+                body = T().visit(copy.deepcopy(n.body))
+                if ast.dump(body) != before:
+                    n2 = copy.copy(n)
+                    n2.body = body
+                    return n2
                 return n
         return T().visit(e)
 
